@@ -399,6 +399,10 @@ class MK:
         self.cond_style = kw.get("cond_style", "prop")
         self.stmt_calls = dict(kw.get("stmt_calls", {}))     # call statements with effects on buffers: name -> python handler(tr, e, st, out, ind)
         self.macro_pat = kw.get("macro_pat", ("(", ")"))
+        self.tr_class = kw.get("tr_class")                   # optional subclass of Tr / IntTr (extra expression forms of one source file)
+        self.macro_lit_ok = dict(kw.get("macro_lit_ok", {})) # macro (call form) -> predicate on the argument texts (literal side conditions)
+        self.let_hooks = dict(kw.get("let_hooks", {}))       # `let x = f(..)` with an aggregate result: fn path -> handler(tr, name, init, st, out, ind)
+        self.stmt_methods = dict(kw.get("stmt_methods", {})) # `recv.m(..);` with an effect: method name -> handler(tr, e, st, out, ind)
 
 
 # ------------------------------------------------------------------------------------------------ values / state
@@ -838,6 +842,9 @@ class Tr:
                 return V(f"{lv.p()} {op} {rv.p()}", ty)      # Nat: no wrap (index arithmetic; the kernel spec's doc states the range)
             if op in "/%" and r[0] == "lit" and r[1] > 0:
                 return V(f"{lv.p()} {op} {rv.p()}", ty)
+            if op == "-" and "-" in self.k.checked_ok:
+                self.n_checked += 1
+                return V(f"{lv.p()} - {rv.p()}", ty)      # Nat truncated subtraction: the spec's doc states why b <= a
             raise TranslateError(f"operator {op} on usize")
         key = (ty if isinstance(ty, str) else ty[0], {"&": "bitand", "|": "bitor", "^": "bitxor", "+": "add", "-": "sub", "*": "mul"}.get(op))
         if key in self.k.methods:
@@ -1150,6 +1157,10 @@ class Tr:
                 st.vars[name] = list(pv)
                 st.scopes[-1].add(name)
                 return rest(st, out, ind)
+        if init[0] == "call" and init[1][0] == "path" and init[1][1] in self.k.let_hooks:
+            self.k.let_hooks[init[1][1]](self, name, init, st, out, ind)
+            st.scopes[-1].add(name)
+            return rest(st, out, ind)
         if init[0] == "method" and init[2] == "clone":
             pv = self.lookup_place(init[1], st)
             if isinstance(pv, list):
@@ -1265,6 +1276,18 @@ class Tr:
             for j, p_ in enumerate(flat):
                 v = self.ex(comp(init, j), st, None, out, ind)
                 self.bind(p_[1], v, st, out, ind, declare=True)
+            return rest(st, out, ind)
+        if init[0] == "method" and init[2] == "overflowing_add" and len(flat) == 2 and len(init[3]) == 1:
+            x = self.ex(init[1], st, None, out, ind)
+            if not self.is_word(x.ty):
+                raise TranslateError("overflowing_add on a non-word")
+            y = self.ex(init[3][0], st, x.ty, out, ind)
+            w = INT_TYPES[x.ty]
+            ov = V(f"decide (2 ^ {w} ≤ {x.p()}.toNat + {y.p()}.toNat)", "bool")
+            sm = V(f"{x.p()} + {y.p()}", x.ty)
+            # both components read the OLD operands: compute the flag first, then the sum (neither let may capture the other)
+            self.bind(flat[1][1], ov, st, out, ind, declare=True)
+            self.bind(flat[0][1], sm, st, out, ind, declare=True)
             return rest(st, out, ind)
         v = self.ex(init, st, None, out, ind)
         if isinstance(v.ty, tuple) and v.ty[0] == "tuple" and len(v.ty[1]) == len(flat):
@@ -1477,6 +1500,8 @@ class Tr:
                 vals.append(str(self.const_int(e, st)))
             else:
                 vals.append(self.ex(e, st, None, out, ind).p())
+        if name in self.k.macro_lit_ok and not self.k.macro_lit_ok[name](vals):
+            raise TranslateError(f"macro {name}: literal argument outside the range its translation assumes")
         places = [P2(args[j]).expr() for j in assigned]
         keys = [self.place_key(p, st) for p in places]
         if len(set(keys)) != len(keys):
@@ -1517,6 +1542,9 @@ class Tr:
         raise TranslateError(f"call statement {fpath}")
 
     def do_method_stmt(self, e, st, out, ind, k):
+        if e[2] in self.k.stmt_methods:
+            self.k.stmt_methods[e[2]](self, e, st, out, ind)
+            return k(st, out, ind, None)
         raise TranslateError(f"method call statement .{e[2]}()")
 
     # ---------- loops
@@ -1830,7 +1858,7 @@ def translate(k: MK):
         stmts = k.select(stmts)
     if k.stmt_filter:
         stmts = [s for i, s in enumerate(stmts) if k.stmt_filter(i, s)]
-    tr = (IntTr if k.mode == "int" else Tr)(k, src, btab)
+    tr = (k.tr_class or (IntTr if k.mode == "int" else Tr))(k, src, btab)
     tr.decl_ty = {}
     st = St()
     for key, (val, ty) in k.env.items():
